@@ -1726,7 +1726,26 @@ class Interp:
         for i in range(n):
             ai = [self._slice_axes(a, ax, i) for a, ax in zip(args, in_axes)]
             outs.append(self.apply(vm.fn, ai, kw))
-        return self.tree_map(('prim', 'stack', lambda *a: np.stack([asarr(x) for x in a])), *outs)
+        stacked = self.tree_map(('prim', 'stack', lambda *a: np.stack([asarr(x) for x in a])), *outs)
+        return self._move_out_axes(stacked, vm.out_axes)
+
+    def _move_out_axes(self, t, ax):
+        """vmap(..., out_axes=ax): the mapped axis (stacked first) goes to position ax, per output / leaf."""
+        if ax is None:
+            raise OutOfFragment('vmap out_axes=None')
+        if isinstance(ax, Rat):
+            ax = int(ax.constval())
+        if isinstance(ax, int):
+            if ax == 0:
+                return t
+            return self.tree_map(('prim', 'moveaxis', lambda x, ax=ax: np.moveaxis(asarr(x), 0, ax)), t)
+        if isinstance(ax, (tuple, list)) and isinstance(t, (tuple, list)) and len(ax) == len(t):
+            return type(t)(self._move_out_axes(x, a) for x, a in zip(t, ax))
+        if isinstance(ax, dict) and isinstance(t, dict):
+            return {k: self._move_out_axes(v, ax[k]) for k, v in t.items()}
+        if isinstance(ax, Struct) and isinstance(t, Struct):
+            return Struct(t.cls, {k: self._move_out_axes(v, ax.f[k]) for k, v in t.f.items()}, home=t.home)
+        raise OutOfFragment('vmap out_axes %r' % (ax,))
 
     def construct(self, c, args, kw):
         name = c.node.name
